@@ -774,6 +774,12 @@ loop:
 
 					sc.writeReset(fr.Stream(), RefusedStreamError)
 
+					// Remembered as closed: whatever the peer had already
+					// sent on it (its body, a WINDOW_UPDATE) is then handled
+					// like any other frame that is late for a closed stream,
+					// DATA being handed back to the connection window.
+					markClosed(fr.Stream())
+
 					// The header block of a stream we refuse still changes
 					// the compression state both ends share (RFC 7540 4.3).
 					if fr.Type() == FrameHeaders {
